@@ -235,6 +235,12 @@ def run(rep, facts, tier):
                       'a NACKFRAG does not name the missing fragments of the sample it is about (sn=%s, set=%s)' % (term_str(sn)[:40], term_str(fs)[:80]), c.where(bb, si))
     rep.floor('R03.5', n_nf, 1, 'NackFrag construction')
 
+    # ------------------------------------------------------------ R03.6 (shared with C01 R01.6)
+    rep.rule('R03.6', 'exclusive-bound discipline: an exclusive "..._before" bound (GAP list base, HEARTBEAT first) used as the end of an inclusive sequence-number range is decremented by one; '
+                      'otherwise the first number after the range is marked unavailable, the ACKNACK base steps over a sample never received nor declared unavailable')
+    from rules.C01 import rule_exclusive_bound
+    rule_exclusive_bound(rep, fx, 'R03.6')
+
 
 def _unfiltered(t, depth=0):
     """first() is applied to the missing_seqnums result directly (through deref/borrow only)."""
